@@ -8,6 +8,8 @@
 (*          file snapshot `disk' is read back from the output path BEFORE   *)
 (*          the mutation, i.e. at the boundary that ends the previous one   *)
 (*   End   {outcome, injected, disk, mem}   return / raise / process death  *)
+(*   Begin {mode, optical, radio, writeStages, stale, disk0}: disk0 = the   *)
+(*          output path as the run finds it (absent, or an earlier file)    *)
 (* A snapshot is [present, cols, rows, dig, meta, metav]; dig / metav are   *)
 (* tokens of bitwise digests of column data / header values.                *)
 (***************************************************************************)
@@ -16,8 +18,12 @@ EXTENDS TraceKit, NuSpaceSim, Float64
 VARIABLES dig,     \* column name -> digest token when it was added
           metav,   \* header keyword -> value token when it was added
           rows,    \* number of rows (survivors), -1 before the geometry stage
-          burst    \* names mutated so far by the writer call in progress (e.cont: this mutation belongs to the same call as the last)
-tvars == <<dig, metav, rows, burst>>
+          burst,   \* names mutated so far by the writer call in progress (e.cont: this mutation belongs to the same call as the last)
+          disk0    \* snapshot of the output path when the run began (a file left by an earlier run, or absent)
+tvars == <<dig, metav, rows, burst, disk0>>
+AbsentSnap == [present |-> FALSE, cols |-> <<>>, rows |-> 0, dig |-> <<>>, meta |-> <<>>, metav |-> <<>>]
+SnapSame(a, b) == /\ a.present = b.present /\ a.cols = b.cols /\ a.dig = b.dig /\ a.rows = b.rows
+                  /\ a.meta = b.meta /\ a.metav = b.metav
 
 NoConfigs == {}
 
@@ -66,13 +72,14 @@ SnapIsCommitted(s) ==
 DiskClausesAt(s, inCall) ==
     IF cfg.writeStages
       THEN IF done = {} \/ (inCall /\ mem.meta \ burst = {} /\ SelectSeq(mem.cols, LAMBDA c : c \notin burst) = <<>>)
-           THEN << <<"C17 nothing but an empty table is on disk before the first boundary",
-                     ~s.present \/ (s.cols = <<>> /\ s.meta = <<>>)>> >>
+           THEN << <<"C17 nothing but an empty table (or the untouched file of an earlier run) is on disk before the first boundary",
+                     ~s.present \/ (s.cols = <<>> /\ s.meta = <<>>) \/ (cfg.stale /\ SnapSame(s, disk0))>> >>
            ELSE IF inCall
            THEN << <<"C17 DiskIsCommitted: inside a writer call the file = table as of the last completed boundary", SnapIsCommitted(s)>> >>
            ELSE << <<"C17 DiskIsMemAtBoundary: file = table of all boundaries completed so far (names, order, data, header)",
                      SnapIsMem(s)>> >>
-      ELSE << <<"C17 NoWriteWhenDisabled: no file without write_stages", ~s.present>> >>
+      ELSE << <<"C17 NoWriteWhenDisabled: without write_stages the simulation writes nothing (no file; a file of an earlier run stays as it was)",
+                IF cfg.stale THEN SnapSame(s, disk0) ELSE ~s.present>> >>
 DiskClauses(s) == DiskClausesAt(s, FALSE)
 
 Check(e) ==
@@ -100,9 +107,10 @@ Check(e) ==
 Effect(e) ==
     CASE e.kind = "Begin" ->
             /\ cfg' = [mode |-> e.mode, optical |-> e.optical, radio |-> e.radio,
-                       writeStages |-> e.writeStages, survivors |-> TRUE]
-            /\ done' = {} /\ mem' = EmptyTable /\ disk' = Absent /\ pending' = {} /\ phase' = "run"
-            /\ dig' = <<>> /\ metav' = <<>> /\ rows' = -1 /\ burst' = {}
+                       writeStages |-> e.writeStages, survivors |-> TRUE, stale |-> e.stale]
+            /\ done' = {} /\ mem' = EmptyTable /\ pending' = {} /\ phase' = "run"
+            /\ disk' = [present |-> e.disk0.present, cols |-> e.disk0.cols, meta |-> Range(e.disk0.meta)]
+            /\ dig' = <<>> /\ metav' = <<>> /\ rows' = -1 /\ burst' = {} /\ disk0' = e.disk0
       [] e.kind = "cols" ->
             LET id == IdOf(e) IN
             /\ mem' = [mem EXCEPT !.cols = @ \o e.names]
@@ -114,7 +122,7 @@ Effect(e) ==
             /\ cfg' = IF id = "Geom" THEN [cfg EXCEPT !.survivors = e.rows > 0] ELSE IF id = "?" THEN cfg ELSE Going
             /\ disk' = [present |-> e.disk.present, cols |-> e.disk.cols, meta |-> Range(e.disk.meta)]
             /\ burst' = (IF e.cont THEN burst ELSE {}) \cup Range(e.names)
-            /\ UNCHANGED <<metav, pending, phase>>
+            /\ UNCHANGED <<metav, pending, phase, disk0>>
       [] e.kind = "meta" ->
             LET id == IdOf(e) IN
             /\ mem' = [mem EXCEPT !.meta = @ \cup Range(e.names)]
@@ -125,11 +133,11 @@ Effect(e) ==
             /\ disk' = [present |-> e.disk.present, cols |-> e.disk.cols, meta |-> Range(e.disk.meta)]
             /\ cfg' = IF id = "?" THEN cfg ELSE Going       \* a keyword no stage of the model writes says nothing about the stages
             /\ burst' = (IF e.cont THEN burst ELSE {}) \cup Range(e.names)
-            /\ UNCHANGED <<dig, rows, pending, phase>>
+            /\ UNCHANGED <<dig, rows, pending, phase, disk0>>
       [] e.kind = "End" ->
             /\ phase' = (IF e.outcome = "return" THEN "returned" ELSE IF e.outcome = "raise" THEN "failed" ELSE "dead")
             /\ disk' = [present |-> e.disk.present, cols |-> e.disk.cols, meta |-> Range(e.disk.meta)]
-            /\ UNCHANGED <<cfg, done, mem, pending, dig, metav, rows, burst>>
+            /\ UNCHANGED <<cfg, done, mem, pending, dig, metav, rows, burst, disk0>>
       [] OTHER -> UNCHANGED <<vars, tvars>>
 
 (* invariants of NuSpaceSim.tla evaluated in the state after every event *)
@@ -139,11 +147,13 @@ Post == Fails(<< <<"inv FinalStructure (C14: the columns of every enabled stage,
                    FinalStructure'>>,
                  <<"inv DiskIsPrefix (C17)", DiskIsPrefix'>>,
                  <<"inv NoWriteWhenDisabled (C17)", NoWriteWhenDisabled'>> >>)
+(* (StaleReplaced is an invariant of the model; on traces the file snapshot of an event is the one read BEFORE its mutation, so a file *)
+(* of an earlier run that survives the first boundary fails DiskIsMemAtBoundary at the next event / at End)                           *)
 
 TInit == /\ TKInit
-         /\ cfg = [mode |-> "Diffuse", optical |-> FALSE, radio |-> FALSE, writeStages |-> FALSE, survivors |-> TRUE]
+         /\ cfg = [mode |-> "Diffuse", optical |-> FALSE, radio |-> FALSE, writeStages |-> FALSE, survivors |-> TRUE, stale |-> FALSE]
          /\ done = {} /\ mem = EmptyTable /\ disk = Absent /\ pending = {} /\ phase = "run"
-         /\ dig = <<>> /\ metav = <<>> /\ rows = -1 /\ burst = {}
+         /\ dig = <<>> /\ metav = <<>> /\ rows = -1 /\ burst = {} /\ disk0 = AbsentSnap
 TNext == TKAdvance /\ Effect(Ev) /\ TKRecord(Check(Ev) \o Post)
 TSpec == TInit /\ [][TNext]_<<tkvars, vars, tvars>>
 =============================================================================
